@@ -174,6 +174,13 @@ def subterms_(t):
     return subterms(t)
 
 
+def _split_carried(t):
+    """a field of a struct carried around the loop by value (`carried.remainder`) is a loop-carried variable of its own"""
+    if t[0] == "field" and t[1][0] == "loopvar" and isinstance(t[1][1], int) and isinstance(t[2], str):
+        return ("loopvar", (t[1][1], t[2]), t[1][2])
+    return t
+
+
 def swap_chain_rules(ctx, ii):
     """R13-swap-chain: in the shifting loop every slot's (continuation bit, remainder, used flag) is read before the slot is
     overwritten with the carried triple, the carried triple becomes the one just read, and the loop runs while the carried slot was used"""
@@ -255,7 +262,7 @@ def swap_chain_rules(ctx, ii):
             is_c = ("index", ("field", selfp, "is_continuation"), P1)
             rem = ("call", "<succinct::IntVector as succinct::IntVec>::get", (("field", selfp, "remainders"), P1))
             # carried values written
-            wc, wr = by_field["is_continuation"][1][2], by_field["remainders"][1][2]
+            wc, wr = _split_carried(by_field["is_continuation"][1][2]), _split_carried(by_field["remainders"][1][2])
             if by_field["is_shifted"][1][2] != const(True):
                 probs.append("shifted slot is not marked is_shifted")
             if wc[0] != "loopvar" or wr[0] != "loopvar":
@@ -269,7 +276,7 @@ def swap_chain_rules(ctx, ii):
                 probs.append("position does not advance by exactly one slot per iteration")
             # loop guard: carried `used`
             hb = ii.blocks[h]
-            gd = tb.operand(hb.term.discr, h, len(hb.stmts)) if hb.term.k == "switch" else None
+            gd = _split_carried(tb.operand(hb.term.discr, h, len(hb.stmts))) if hb.term.k == "switch" else None
             if gd is None or gd[0] != "loopvar":
                 probs.append("the chain loop is not guarded by the carried `used` flag")
             else:
@@ -283,9 +290,9 @@ def swap_chain_rules(ctx, ii):
     if not probs:
         scan_t0 = ("call", QF + "::scan", (selfp, ("param", 2, "quotient"), ("param", 3, "remainder"), const(True)))
         pos0 = ("field", scan_t0, "position")
-        wc, wr = by_field["is_continuation"][1][2], by_field["remainders"][1][2]
+        wc, wr = _split_carried(by_field["is_continuation"][1][2]), _split_carried(by_field["remainders"][1][2])
         hb = ii.blocks[h]
-        gd = tb.operand(hb.term.discr, h, len(hb.stmts))
+        gd = _split_carried(tb.operand(hb.term.discr, h, len(hb.stmts)))
         from ..guards import atomic_facts
 
         def or_form(init, first, second):
